@@ -173,24 +173,24 @@ def updNodeAt (s : St) (h : Nat) (f : Attrs → Attrs) : St :=
 /-! ### operations.go -/
 
 /-- LookupWithContext -/
-def lookupPath (s : St) (now : Nat) (p : Bytes) : St × Except Nat Node :=
-  if p = [] then (s, .error 5) else
+def lookupPath (s : St) (now : Nat) (p : Bytes) : St × Except Errno Node :=
+  if p = [] then (s, .error .EIO) else
   let (s1, r) := acGet s now p
   match r with
   | .hit a => (s1, .ok { path := p, attrs := a })
-  | .neg => (s1, .error 2)
+  | .neg => (s1, .error .ENOENT)
   | .miss =>
     match Fs.lstat s1.fs (fsPath p) with
-    | .error e => ((if e = .ENOENT then acPutNeg s1 now p else s1), .error (mapErrno e))
+    | .error e => ((if e = .ENOENT then acPutNeg s1 now p else s1), .error e)
     | .ok i =>
       let a := attrsOfInfo i (fnv64 p) 0 0
       (acPut s1 now p a, .ok { path := p, attrs := a })
 
 /-- GetAttr: the cached copy is never "valid", so the cache is only touched and refreshed -/
-def getAttr (s : St) (now : Nat) (n : Node) : St × Except Nat Attrs :=
+def getAttr (s : St) (now : Nat) (n : Node) : St × Except Errno Attrs :=
   let (s1, _) := acGet s now n.path
   match Fs.lstat s1.fs (fsPath n.path) with
-  | .error e => (s1, .error (mapErrno e))
+  | .error e => (s1, .error e)
   | .ok i =>
     let a := attrsOfInfo i (fnv64 n.path) n.attrs.uid n.attrs.gid
     (acPut s1 now n.path a, .ok a)
@@ -219,7 +219,7 @@ def lookupEach (s : St) (now : Nat) (dir : Bytes) : List Bytes → St × List No
           let r := lookupEach s1 now dir ns
           (r.1, node :: r.2)
 
-def readDir (s : St) (now : Nat) (dir : Node) : St × Except Nat (List Node) :=
+def readDir (s : St) (now : Nat) (dir : Node) : St × Except Errno (List Node) :=
   let cached : Option (St × List Bytes) :=
     match s.dc with
     | none => none
@@ -235,7 +235,7 @@ def readDir (s : St) (now : Nat) (dir : Node) : St × Except Nat (List Node) :=
     -- the miss path of DirCache.Get has the same effect on the cache as `get` (removal of an expired entry)
     let s0 : St := { s with dc := s.dc.map fun c => (Lru.get c now dir.path).1 }
     match Fs.readdir s0.fs (fsPath dir.path) with
-    | .error e => (s0, .error (mapErrno e))
+    | .error e => (s0, .error e)
     | .ok ents =>
       let names := ents.map (·.1)
       let s1 : St := { s0 with dc := s0.dc.map fun c =>
@@ -274,7 +274,7 @@ def procGetattr (s : St) (c : Ctx) (args : Bytes) : St × Outcome :=
     | none => (s, res 70 .statusOnly)
     | some n =>
       match getAttr s c.now n with
-      | (s1, .error st) => (s1, res st .statusOnly)
+      | (s1, .error st) => (s1, res (mapErrno st) .statusOnly)
       | (s1, .ok a) => (s1, res 0 (.attr (toFattr a)))
 
 /-- SetAttr (operations.go) on the node stored under handle h; returns the error status if any -/
@@ -336,7 +336,7 @@ def setattrApply (s2 : St) (c : Ctx) (h : Nat) (sa : Sattr3) (pre : Attrs) : St 
   | (s3, some st) => (s3, res st (.wcc wcc0))
   | (s3, none) =>
   match getAttr s3 c.now { n2 with attrs := a3 } with
-  | (s4, .error st) => (s4, res st (.wcc wcc0))
+  | (s4, .error st) => (s4, res (mapErrno st) (.wcc wcc0))
   | (s4, .ok post) => (s4, res 0 (.wcc (wccOf pre post)))
 
 /-- sattrguard3 after its discriminant: nothing more for 0, else two more words -/
@@ -365,7 +365,7 @@ def procSetattr (s : St) (c : Ctx) (args : Bytes) : St × Outcome :=
   | none => (s, res 70 (.wcc wcc0))
   | some n =>
   match getAttr s c.now n with
-  | (s1, .error st) => (s1, res st (.wcc wcc0))
+  | (s1, .error st) => (s1, res (mapErrno st) (.wcc wcc0))
   | (s1, .ok pre) =>
   if guard ≠ 0 then (s1, res 10002 (.wcc wcc0)) else
   match setattrSize s1 h n pre sa.size with
@@ -385,7 +385,7 @@ def procLookup (s : St) (c : Ctx) (args : Bytes) : St × Outcome :=
   | some n =>
   if n.attrs.kind ≠ .dir then (s, res 20 (.postOp (some (toFattr n.attrs)))) else
   match lookupPath s c.now (joinName n.path name) with
-  | (s1, .error st) => (s1, res st (.postOp (some (toFattr n.attrs))))
+  | (s1, .error st) => (s1, res (mapErrno st) (.postOp (some (toFattr n.attrs))))
   | (s1, .ok ln) =>
     let (s2, fh) := allocate s1 ln
     (s2, res 0 (.lookupOk fh (some (toFattr ln.attrs)) (some (toFattr n.attrs))))
@@ -401,7 +401,7 @@ def procAccess (s : St) (c : Ctx) (args : Bytes) : St × Outcome :=
   | none => (s, res 70 (.postOp none))
   | some n =>
   match getAttr s c.now n with
-  | (s1, .error st) => (s1, res st (.postOp none))
+  | (s1, .error st) => (s1, res (mapErrno st) (.postOp none))
   | (s1, .ok a) =>
     (s1, res 0 (.accessOk (some (toFattr a))
       (accessReply a.perm (a.kind = .dir) s.cfg.readOnly c.uid c.gid c.aux a.uid a.gid mask)))
@@ -421,7 +421,7 @@ def procReadlink (s : St) (c : Ctx) (args : Bytes) : St × Outcome :=
   | .ok t =>
     if t.head? ≠ some 47 ∧ targetHasDotDot t then (s, res 5 (.postOp none)) else
     match getAttr s c.now n with
-    | (s1, .error st) => (s1, res st (.postOp none))
+    | (s1, .error st) => (s1, res (mapErrno st) (.postOp none))
     | (s1, .ok a) => (s1, res 0 (.readlinkOk (some (toFattr a)) t))
 
 def procRead (s : St) (c : Ctx) (args : Bytes) : St × Outcome :=
@@ -446,9 +446,21 @@ def procRead (s : St) (c : Ctx) (args : Bytes) : St × Outcome :=
     let size := (Fs.infoOf e).size
     let data : Bytes := if size ≤ off then [] else Fs.slice e.data off (min cnt' (size - off))
     match getAttr s c.now n with
-    | (s1, .error st) => (s1, res st (.postOp none))
+    | (s1, .error st) => (s1, res (mapErrno st) (.postOp none))
     | (s1, .ok a) =>
       (s1, res 0 (.readOk (some (toFattr a)) data.length (decide (off + data.length ≥ a.size)) data))
+
+/-- WriteWithContext: a negative offset (as int64) is refused; OpenFile(O_WRONLY) + WriteAt + Sync; then the
+    cache entry is dropped and the node's size refreshed from Stat -/
+def writeOp (s1 : St) (h : Nat) (n : Node) (off : Nat) (data : Bytes) : Except Errno (St × Nat) :=
+  if off > maxInt64 then .error .EIO
+  else match Fs.writeAt s1.fs (fsPath n.path) off data with
+    | .error e => .error e
+    | .ok (fs1, k) =>
+      let s2 := acInv { s1 with fs := fs1 } n.path
+      match Fs.stat s2.fs (fsPath n.path) with
+      | .error _ => .ok (s2, k)
+      | .ok i => .ok (updNodeAt s2 h fun a => { a with size := i.size }, k)
 
 def procWrite (s : St) (c : Ctx) (args : Bytes) : St × Outcome :=
   if s.cfg.readOnly then (s, res 30 (.wcc wcc0)) else
@@ -478,47 +490,38 @@ def procWrite (s : St) (c : Ctx) (args : Bytes) : St × Outcome :=
   | none => (s, res 70 (.wcc wcc0))
   | some n =>
   match getAttr s c.now n with
-  | (s1, .error st) => (s1, res st (.wcc wcc0))
+  | (s1, .error st) => (s1, res (mapErrno st) (.wcc wcc0))
   | (s1, .ok pre) =>
-  let wr : Except Nat (St × Nat) :=
-    if off > maxInt64 then .error 5
-    else match Fs.writeAt s1.fs (fsPath n.path) off data with
-      | .error e => .error (mapErrno e)
-      | .ok (fs1, k) =>
-        let s2 := acInv { s1 with fs := fs1 } n.path
-        match Fs.stat s2.fs (fsPath n.path) with
-        | .error _ => .ok (s2, k)
-        | .ok i => .ok (updNodeAt s2 h fun a => { a with size := i.size }, k)
-  match wr with
-  | .error st =>
+  match writeOp s1 h n off data with
+  | .error e =>
     let (s2, post) := getAttrOr s1 c.now n pre
-    (s2, res st (.wcc (wccOf pre post)))
+    (s2, res (mapErrno e) (.wcc (wccOf pre post)))
   | .ok (s2, k) =>
     match getAttr s2 c.now n with
-    | (s3, .error st) => (s3, res st (.wcc wcc0))
+    | (s3, .error st) => (s3, res (mapErrno st) (.wcc wcc0))
     | (s3, .ok post) => (s3, res 0 (.writeOk (wccOf pre post) k 2 s.cfg.writeVerf))
 
 /-- CreateWithContext / Symlink: the backend call, then the invalidations and the Lookup of the new path -/
-def createOp (s : St) (now : Nat) (dir : Node) (name : Bytes) (perm : Nat) : St × Except Nat Node :=
+def createOp (s : St) (now : Nat) (dir : Node) (name : Bytes) (perm : Nat) : St × Except Errno Node :=
   match sanitize dir.path name with
-  | none => (s, .error 5)
+  | none => (s, .error .EIO)
   | some p =>
     match Fs.create s.fs (fsPath p) with
-    | .error e => (s, .error (mapErrno e))
+    | .error e => (s, .error e)
     | .ok fs1 =>
       match Fs.chmod fs1 (fsPath p) (perm % 512) with
       | .error e =>
         -- s.fs.Remove(path)
         let fs2 := match Fs.remove fs1 (fsPath p) with | .ok f => f | .error _ => fs1
-        ({ s with fs := fs2 }, .error (mapErrno e))
+        ({ s with fs := fs2 }, .error e)
       | .ok fs2 => lookupPath (invalidateForNew { s with fs := fs2 } dir.path p) now p
 
-def symlinkOp (s : St) (now : Nat) (dir : Node) (name target : Bytes) : St × Except Nat Node :=
+def symlinkOp (s : St) (now : Nat) (dir : Node) (name target : Bytes) : St × Except Errno Node :=
   match sanitize dir.path name with
-  | none => (s, .error 5)
+  | none => (s, .error .EIO)
   | some p =>
     match Fs.symlink s.fs target (fsPath p) with
-    | .error e => (s, .error (mapErrno e))
+    | .error e => (s, .error e)
     | .ok fs1 => lookupPath (invalidateForNew { s with fs := fs1 } dir.path p) now p
 
 def sameExclusive (s : St) (p verf : Bytes) : Bool :=
@@ -552,7 +555,7 @@ def createFinish (s2 : St) (st : Nat) (c : Ctx) (n : Node) (pre : Attrs) (p : By
   else match lookupPath s2 c.now p with
     | (s3, .error e) =>
       let (s4, post) := getAttrOr s3 c.now n pre
-      (s4, res e (.wcc (wccOf pre post)))
+      (s4, res (mapErrno e) (.wcc (wccOf pre post)))
     | (s3, .ok node) =>
       let (s4, post) := getAttrOr s3 c.now n pre
       let (s5, fh) := allocate s4 node
@@ -561,6 +564,40 @@ def createFinish (s2 : St) (st : Nat) (c : Ctx) (n : Node) (pre : Attrs) (p : By
 def createExisting (s1 : St) (c : Ctx) (n : Node) (pre : Attrs) (p : Bytes) (info : Fs.Info) (how : Nat) (sa : Sattr3)
     (verf : Bytes) : St × Outcome :=
   createFinish (createStep1 s1 p info how sa verf).1 (createStep1 s1 p info how sa verf).2 c n pre p
+
+/-- Chown whose failure is only logged -/
+def chownQuiet (s : St) (p : Bytes) (uid gid : Nat) : St :=
+  match Fs.chown s.fs (fsPath p) uid gid with
+  | .ok f => { s with fs := f }
+  | .error _ => s
+
+def lchownQuiet (s : St) (p : Bytes) (uid gid : Nat) : St :=
+  match Fs.lchown s.fs (fsPath p) uid gid with
+  | .ok f => { s with fs := f }
+  | .error _ => s
+
+/-- CREATE of a name that is free: Create(), remember an EXCLUSIVE verifier, Chown, reply -/
+def createNew (s1 : St) (c : Ctx) (n : Node) (pre : Attrs) (name : Bytes) (mode how : Nat) (sa : Sattr3) (verf : Bytes) :
+    St × Outcome :=
+  match createOp s1 c.now n name mode with
+  | (s2, .error st) =>
+    let (s3, post) := getAttrOr s2 c.now n pre
+    (s3, res (mapErrno st) (.wcc (wccOf pre post)))
+  | (s2, .ok node) =>
+    let s3 := if how = 2 then rememberExclusive s2 node.path verf else s2
+    let s4 := chownQuiet s3 node.path (ownerUid c sa) (ownerGid c sa)
+    match getAttr s4 c.now n with
+    | (s5, .error st) => (s5, res (mapErrno st) (.wcc wcc0))
+    | (s5, .ok post) =>
+      let (s6, fh) := allocate s5 node
+      (s6, res 0 (.createOk (some fh) (some (toFattr node.attrs)) (wccOf pre post)))
+
+/-- the arguments of CREATE after the directory handle and the name: createhow3 and its payload
+    (sattr3 for UNCHECKED/GUARDED, the 8-byte verifier for EXCLUSIVE; other discriminants read nothing) -/
+def parseCreateHow (how : Nat) (r3 : Bytes) : Option (Sattr3 × Bytes) :=
+  if how = 0 ∨ how = 1 then (decSattr3 r3).map fun x => (x.1, [])
+  else if how = 2 then (take? 8 r3).map fun x => ({}, x.1)
+  else some ({}, [])
 
 def procCreate (s : St) (c : Ctx) (args : Bytes) : St × Outcome :=
   if s.cfg.readOnly then (s, res 30 (.wcc wcc0)) else
@@ -574,43 +611,21 @@ def procCreate (s : St) (c : Ctx) (args : Bytes) : St × Outcome :=
   match decU32 r2 with
   | none => (s, res 4 (.wcc wcc0))
   | some (how, r3) =>
-  -- createhow3
-  let parsed : Option (Sattr3 × Bytes) :=
-    if how = 0 ∨ how = 1 then (decSattr3 r3).map fun x => (x.1, [])
-    else if how = 2 then (take? 8 r3).map fun x => ({}, x.1)
-    else some ({}, [])
-  match parsed with
+  match parseCreateHow how r3 with
   | none => (s, res 4 (.wcc wcc0))
   | some (sa, verf) =>
-  let isExcl := how = 2
   let mode := sa.mode.getD 0o644
-  let newUid := ownerUid c sa
-  let newGid := ownerGid c sa
   if validateMode mode ≠ 0 then (s, res 22 (.wcc wcc0)) else
   match nodeOf s h with
   | none => (s, res 70 (.wcc wcc0))
   | some n =>
   match getAttr s c.now n with
-  | (s1, .error st) => (s1, res st (.wcc wcc0))
+  | (s1, .error st) => (s1, res (mapErrno st) (.wcc wcc0))
   | (s1, .ok pre) =>
   let p := joinName n.path name
   match Fs.lstat s1.fs (fsPath p) with
   | .ok info => createExisting s1 c n pre p info how sa verf
-  | .error _ =>
-    match createOp s1 c.now n name mode with
-    | (s2, .error st) =>
-      let (s3, post) := getAttrOr s2 c.now n pre
-      (s3, res st (.wcc (wccOf pre post)))
-    | (s2, .ok node) =>
-      let s3 := if isExcl then rememberExclusive s2 node.path verf else s2
-      let s4 : St := match Fs.chown s3.fs (fsPath node.path) newUid newGid with
-        | .ok f => { s3 with fs := f }
-        | .error _ => s3
-      match getAttr s4 c.now n with
-      | (s5, .error st) => (s5, res st (.wcc wcc0))
-      | (s5, .ok post) =>
-        let (s6, fh) := allocate s5 node
-        (s6, res 0 (.createOk (some fh) (some (toFattr node.attrs)) (wccOf pre post)))
+  | .error _ => createNew s1 c n pre name mode how sa verf
 
 def procMkdir (s : St) (c : Ctx) (args : Bytes) : St × Outcome :=
   if s.cfg.readOnly then (s, res 30 (.wcc wcc0)) else
@@ -630,7 +645,7 @@ def procMkdir (s : St) (c : Ctx) (args : Bytes) : St × Outcome :=
   | none => (s, res 70 (.wcc wcc0))
   | some n =>
   match getAttr s c.now n with
-  | (s1, .error st) => (s1, res st (.wcc wcc0))
+  | (s1, .error st) => (s1, res (mapErrno st) (.wcc wcc0))
   | (s1, .ok pre) =>
   let p := joinName n.path name
   match Fs.mkdir s1.fs (fsPath p) mode with
@@ -639,16 +654,12 @@ def procMkdir (s : St) (c : Ctx) (args : Bytes) : St × Outcome :=
     (s2, res (mapErrno e) (.wcc (wccOf pre post)))
   | .ok fs1 =>
     let s2 := invalidateForNew { s1 with fs := fs1 } n.path p
-    let uid := ownerUid c sa
-    let gid := ownerGid c sa
-    let s3 : St := match Fs.chown s2.fs (fsPath p) uid gid with
-      | .ok f => { s2 with fs := f }
-      | .error _ => s2
+    let s3 : St := chownQuiet s2 p (ownerUid c sa) (ownerGid c sa)
     match lookupPath s3 c.now p with
-    | (s4, .error st) => (s4, res st (.wcc wcc0))
+    | (s4, .error st) => (s4, res (mapErrno st) (.wcc wcc0))
     | (s4, .ok node) =>
       match getAttr s4 c.now n with
-      | (s5, .error st) => (s5, res st (.wcc wcc0))
+      | (s5, .error st) => (s5, res (mapErrno st) (.wcc wcc0))
       | (s5, .ok post) =>
         let (s6, fh) := allocate s5 node
         (s6, res 0 (.createOk (some fh) (some (toFattr node.attrs)) (wccOf pre post)))
@@ -675,23 +686,28 @@ def procSymlink (s : St) (c : Ctx) (args : Bytes) : St × Outcome :=
   | none => (s, res 70 (.wcc wcc0))
   | some n =>
   match getAttr s c.now n with
-  | (s1, .error st) => (s1, res st (.wcc wcc0))
+  | (s1, .error st) => (s1, res (mapErrno st) (.wcc wcc0))
   | (s1, .ok pre) =>
   match symlinkOp s1 c.now n name target with
   | (s2, .error st) =>
     let (s3, post) := getAttrOr s2 c.now n pre
-    (s3, res st (.wcc (wccOf pre post)))
+    (s3, res (mapErrno st) (.wcc (wccOf pre post)))
   | (s2, .ok node) =>
-    let uid := ownerUid c sa
-    let gid := ownerGid c sa
-    let s3 : St := match Fs.lchown s2.fs (fsPath (joinName n.path name)) uid gid with
-      | .ok f => { s2 with fs := f }
-      | .error _ => s2
+    let s3 : St := lchownQuiet s2 (joinName n.path name) (ownerUid c sa) (ownerGid c sa)
     match getAttr s3 c.now n with
-    | (s4, .error st) => (s4, res st (.wcc wcc0))
+    | (s4, .error st) => (s4, res (mapErrno st) (.wcc wcc0))
     | (s4, .ok post) =>
       let (s5, fh) := allocate s4 node
       (s5, res 0 (.createOk (some fh) (some (toFattr node.attrs)) (wccOf pre post)))
+
+/-- RemoveWithContext: sanitize, backend Remove, then the invalidations -/
+def removeOp (s1 : St) (n : Node) (name : Bytes) : Except Errno St :=
+  match sanitize n.path name with
+  | none => .error .EIO
+  | some p =>
+    match Fs.remove s1.fs (fsPath p) with
+    | .error e => .error e
+    | .ok fs1 => .ok (dcInv (acInv (acInv { s1 with fs := fs1 } p) n.path) n.path)
 
 def procRemove (s : St) (c : Ctx) (args : Bytes) : St × Outcome :=
   if s.cfg.readOnly then (s, res 30 (.wcc wcc0)) else
@@ -707,22 +723,15 @@ def procRemove (s : St) (c : Ctx) (args : Bytes) : St × Outcome :=
   | some n =>
   if n.attrs.kind ≠ .dir then (s, res 20 (.wcc wcc0)) else
   match getAttr s c.now n with
-  | (s1, .error st) => (s1, res st (.wcc wcc0))
+  | (s1, .error st) => (s1, res (mapErrno st) (.wcc wcc0))
   | (s1, .ok pre) =>
-  let rm : Except Nat St :=
-    match sanitize n.path name with
-    | none => .error 5
-    | some p =>
-      match Fs.remove s1.fs (fsPath p) with
-      | .error e => .error (mapErrno e)
-      | .ok fs1 => .ok (dcInv (acInv (acInv { s1 with fs := fs1 } p) n.path) n.path)
-  match rm with
-  | .error st =>
+  match removeOp s1 n name with
+  | .error e =>
     let (s2, post) := getAttrOr s1 c.now n pre
-    (s2, res st (.wcc (wccOf pre post)))
+    (s2, res (mapErrno e) (.wcc (wccOf pre post)))
   | .ok s2 =>
     match getAttr s2 c.now n with
-    | (s3, .error st) => (s3, res st (.wcc wcc0))
+    | (s3, .error st) => (s3, res (mapErrno st) (.wcc wcc0))
     | (s3, .ok post) => (s3, res 0 (.wcc (wccOf pre post)))
 
 def procRmdir (s : St) (c : Ctx) (args : Bytes) : St × Outcome :=
@@ -739,7 +748,7 @@ def procRmdir (s : St) (c : Ctx) (args : Bytes) : St × Outcome :=
   | some n =>
   if n.attrs.kind ≠ .dir then (s, res 20 (.wcc wcc0)) else
   match getAttr s c.now n with
-  | (s1, .error st) => (s1, res st (.wcc wcc0))
+  | (s1, .error st) => (s1, res (mapErrno st) (.wcc wcc0))
   | (s1, .ok pre) =>
   let p := joinName n.path name
   match Fs.lstat s1.fs (fsPath p) with
@@ -754,8 +763,19 @@ def procRmdir (s : St) (c : Ctx) (args : Bytes) : St × Outcome :=
     | .ok fs1 =>
       let s2 := dcInv (dcInv (acInv (acInv { s1 with fs := fs1 } p) n.path) n.path) p
       match getAttr s2 c.now n with
-      | (s3, .error st) => (s3, res st (.wcc wcc0))
+      | (s3, .error st) => (s3, res (mapErrno st) (.wcc wcc0))
       | (s3, .ok post) => (s3, res 0 (.wcc (wccOf pre post)))
+
+/-- RenameWithContext: sanitize both, backend Rename, then the invalidations (prefix invalidation for both paths) -/
+def renameOp (s2 : St) (d1 : Node) (n1 : Bytes) (d2 : Node) (n2 : Bytes) : Except Errno St :=
+  match sanitize d1.path n1, sanitize d2.path n2 with
+  | some p1, some p2 =>
+    (match Fs.rename s2.fs (fsPath p1) (fsPath p2) with
+     | .error e => .error e
+     | .ok fs1 =>
+       let a := acInvNegIn (acInvNegIn (acInv (acInv (acInvPrefix (acInvPrefix { s2 with fs := fs1 } p1) p2) d1.path) d2.path) d1.path) d2.path
+       .ok (dcInvPrefix (dcInvPrefix (dcInv (dcInv a d1.path) d2.path) p1) p2))
+  | _, _ => .error .EIO
 
 def procRename (s : St) (c : Ctx) (args : Bytes) : St × Outcome :=
   if s.cfg.readOnly then (s, res 30 (.wcc2 wcc0 wcc0)) else
@@ -780,31 +800,22 @@ def procRename (s : St) (c : Ctx) (args : Bytes) : St × Outcome :=
   | none => (s, res 70 (.wcc2 wcc0 wcc0))
   | some d2 =>
   match getAttr s c.now d1 with
-  | (s1, .error st) => (s1, res st (.wcc2 wcc0 wcc0))
+  | (s1, .error st) => (s1, res (mapErrno st) (.wcc2 wcc0 wcc0))
   | (s1, .ok pre1) =>
   match getAttr s1 c.now d2 with
-  | (s2, .error st) => (s2, res st (.wcc2 wcc0 wcc0))
+  | (s2, .error st) => (s2, res (mapErrno st) (.wcc2 wcc0 wcc0))
   | (s2, .ok pre2) =>
-  let rn : Except Nat St :=
-    match sanitize d1.path n1, sanitize d2.path n2 with
-    | some p1, some p2 =>
-      (match Fs.rename s2.fs (fsPath p1) (fsPath p2) with
-       | .error e => .error (mapErrno e)
-       | .ok fs1 =>
-         let a := acInvNegIn (acInvNegIn (acInv (acInv (acInvPrefix (acInvPrefix { s2 with fs := fs1 } p1) p2) d1.path) d2.path) d1.path) d2.path
-         .ok (dcInvPrefix (dcInvPrefix (dcInv (dcInv a d1.path) d2.path) p1) p2))
-    | _, _ => .error 5
-  match rn with
-  | .error st =>
+  match renameOp s2 d1 n1 d2 n2 with
+  | .error e =>
     let (s3, post1) := getAttrOr s2 c.now d1 pre1
     let (s4, post2) := getAttrOr s3 c.now d2 pre2
-    (s4, res st (.wcc2 (wccOf pre1 post1) (wccOf pre2 post2)))
+    (s4, res (mapErrno e) (.wcc2 (wccOf pre1 post1) (wccOf pre2 post2)))
   | .ok s3 =>
     match getAttr s3 c.now d1 with
-    | (s4, .error st) => (s4, res st (.wcc2 wcc0 wcc0))
+    | (s4, .error st) => (s4, res (mapErrno st) (.wcc2 wcc0 wcc0))
     | (s4, .ok post1) =>
       match getAttr s4 c.now d2 with
-      | (s5, .error st) => (s5, res st (.wcc2 wcc0 wcc0))
+      | (s5, .error st) => (s5, res (mapErrno st) (.wcc2 wcc0 wcc0))
       | (s5, .ok post2) => (s5, res 0 (.wcc2 (wccOf pre1 post1) (wccOf pre2 post2)))
 
 /-- encoded size of one entry3 / the extra of an entryplus3 (nfs_proc_dir.go) -/
@@ -850,10 +861,10 @@ def procReaddir (s : St) (c : Ctx) (args : Bytes) : St × Outcome :=
   | some n =>
   if n.attrs.kind ≠ .dir then (s, res 20 (.postOp none)) else
   match readDir s c.now n with
-  | (s1, .error st) => (s1, res st (.postOp none))
+  | (s1, .error st) => (s1, res (mapErrno st) (.postOp none))
   | (s1, .ok nodes) =>
   match getAttr s1 c.now n with
-  | (s2, .error st) => (s2, res st (.postOp none))
+  | (s2, .error st) => (s2, res (mapErrno st) (.postOp none))
   | (s2, .ok a) =>
     let limit := if count < dirListHeader + dirListTrailer then minReaddirReply else count
     match fillDir limit cookie 0 dirListHeader 0 nodes with
@@ -898,11 +909,11 @@ def procReaddirplus (s : St) (c : Ctx) (args : Bytes) : St × Outcome :=
   | some n =>
   if n.attrs.kind ≠ .dir then (s, res 20 (.postOp none)) else
   match readDir s c.now n with
-  | (s1, .error st) => (s1, res st (.postOp none))
+  | (s1, .error st) => (s1, res (mapErrno st) (.postOp none))
   | (s1, .ok nodes0) =>
   let (s2, nodes) := refreshEach s1 c.now nodes0
   match getAttr s2 c.now n with
-  | (s3, .error st) => (s3, res st (.postOp none))
+  | (s3, .error st) => (s3, res (mapErrno st) (.postOp none))
   | (s3, .ok a) =>
     let limit := if maxcount < dirListHeader + dirListTrailer then minReaddirplusReply else maxcount
     match fillDirPlus limit cookie s3 0 dirListHeader 0 nodes with
@@ -918,7 +929,7 @@ def withObjAttr (s : St) (c : Ctx) (args : Bytes) (k : Rfc.Fattr → Rfc.Body) :
   | none => (s, res 70 (.postOp none))
   | some n =>
   match getAttr s c.now n with
-  | (s1, .error st) => (s1, res st (.postOp none))
+  | (s1, .error st) => (s1, res (mapErrno st) (.postOp none))
   | (s1, .ok a) => (s1, res 0 (k (toFattr a)))
 
 def fsinfoBody (cfg : Cfg) (a : Rfc.Fattr) : Rfc.Body :=
@@ -943,7 +954,7 @@ def procCommit (s : St) (c : Ctx) (args : Bytes) : St × Outcome :=
   | none => (s, res 70 (.wcc wcc0))
   | some n =>
   match getAttr s c.now n with
-  | (s1, .error st) => (s1, res st (.wcc wcc0))
+  | (s1, .error st) => (s1, res (mapErrno st) (.wcc wcc0))
   | (s1, .ok a) =>
     -- regular file: OpenFile(O_WRONLY) + Sync + Close; the file was just lstat'ed, the open cannot fail
     (s1, res 0 (.commitOk (wccOf a a) s.cfg.writeVerf))
